@@ -1094,6 +1094,19 @@ func (it *Interp) evalPhis(j *ssa.BasicBlock, prev *ssa.BasicBlock, st *state) {
 }
 
 func (it *Interp) mux(c *Node, a, b Value) Value {
+	// two error-like values (nil, a symbolic error, an opaque non-nil error object): only the
+	// nil-ness survives the merge
+	{
+		_, ha := a.(HandleV)
+		_, hb := b.(HandleV)
+		_, na := a.(NilV)
+		_, nb := b.(NilV)
+		if (ha && (nb || hb) && a != b) || (hb && na) {
+			x, _ := it.errNil(a)
+			y, _ := it.errNil(b)
+			return ErrV{it.T.Mux(c, x, y)}
+		}
+	}
 	if _, isErr := a.(ErrV); isErr {
 		if nb, ok := it.errNil(b); ok {
 			na, _ := it.errNil(a)
@@ -1319,6 +1332,15 @@ func bvEqual(a, b Value) bool {
 	case NilV:
 		_, ok := b.(NilV)
 		return ok
+	case HandleV:
+		q, ok := b.(HandleV)
+		return ok && p == q
+	case ErrV:
+		q, ok := b.(ErrV)
+		return ok && p.Nil == q.Nil
+	case StrV:
+		q, ok := b.(StrV)
+		return ok && p.Known && q.Known && p.S == q.S
 	}
 	return false
 }
@@ -1701,6 +1723,27 @@ func (it *Interp) step(st *state, ins ssa.Instruction, depth int) {
 		}
 	case *ssa.MakeInterface:
 		st.regs[x] = it.val(st, x.X)
+	case *ssa.SliceToArrayPointer:
+		// (*[n]T)(s): the array at the start of the slice (panics when len(s) < n)
+		sl, ok := it.val(st, x.X).(SliceV)
+		n := int(x.Type().(*types.Pointer).Elem().Underlying().(*types.Array).Len())
+		if !ok || sl.Nil || sl.Obj == nil || (sl.Len >= 0 && sl.Len < n) {
+			it.unsup("slice-to-array conversion of a slice that may be shorter than the array in %s", x.Parent().String())
+			st.regs[x] = OpaqueV{"slice2array"}
+			return
+		}
+		if sl.Lo != 0 {
+			// element i of the array is element Lo+i of the backing store: materialise a view object
+			o := it.NewObj(fmt.Sprintf("view%d", it.nobj+1), false)
+			st.mem[o] = map[string]Value{}
+			el := x.Type().(*types.Pointer).Elem().Underlying().(*types.Array).Elem()
+			for i := 0; i < n; i++ {
+				st.mem[o][fmt.Sprintf("[%d]", i)] = it.load(st, it.sliceElemPtr(sl, i), el)
+			}
+			st.regs[x] = Ptr{Obj: o}
+			return
+		}
+		st.regs[x] = Ptr{Obj: sl.Obj, Path: sl.Path}
 	case *ssa.MakeClosure:
 		fv := FuncV{}
 		fv.Fn, _ = x.Fn.(*ssa.Function)
@@ -2005,6 +2048,10 @@ func (it *Interp) binop(x *ssa.BinOp, a, b Value) Value {
 					return BV{W: 1, B: []*Node{n}}
 				case Ptr, HandleV:
 					eq = 0
+				case FuncV:
+					if q.Fn != nil {
+						eq = 0 // a function value is not nil
+					}
 				case SliceV:
 					if q.Nil {
 						eq = 1
@@ -2539,6 +2586,11 @@ func (it *Interp) call(st *state, x *ssa.Call, c *ssa.CallCommon, depth int) Val
 		it.pendingBind = bind
 		return it.Call(callee, args, st, depth+1)
 	}
+	if o := callee.Origin(); callee.Pkg == nil && o != nil && o.Pkg != nil && IsRepoPkg(o.Pkg.Pkg) && callee.Blocks != nil {
+		// an instance of a generic function of this repository
+		it.pendingBind = bind
+		return it.Call(callee, args, st, depth+1)
+	}
 	if callee.Pkg == nil && callee.Synthetic != "" && callee.Blocks != nil && callee.Object() != nil && callee.Object().Pkg() != nil && IsRepoPkg(callee.Object().Pkg()) {
 		// bound-method / thunk wrapper of a repository method
 		it.pendingBind = bind
@@ -2847,6 +2899,32 @@ func (it *Interp) stdModel(st *state, name string, c *ssa.CallCommon, args []Val
 			it.store(st, it.sliceElemPtr(s, i), b)
 		}
 		return nil, true
+	case "(encoding/binary.bigEndian).AppendUint16", "(encoding/binary.bigEndian).AppendUint32", "(encoding/binary.bigEndian).AppendUint64":
+		// append(b, octets of v...) in the byte order
+		n := map[string]int{"16": 2, "32": 4, "64": 8}[name[len(name)-2:]]
+		base, ok1 := args[len(args)-2].(SliceV)
+		v, ok2 := args[len(args)-1].(BV)
+		if !ok1 || !ok2 || (base.Len < 0 && !base.Nil) {
+			return nil, false
+		}
+		o := it.NewObj(fmt.Sprintf("append%d", it.nobj+1), false)
+		st.mem[o] = map[string]Value{}
+		k := 0
+		if !base.Nil {
+			for i := 0; i < base.Len; i++ {
+				it.storeQuiet(st, Ptr{Obj: o, Path: fmt.Sprintf("[%d]", k)}, it.load(st, it.sliceElemPtr(base, i), types.Typ[types.Uint8]))
+				k++
+			}
+		}
+		for i := 0; i < n; i++ {
+			b := BV{W: 8, B: make([]*Node, 8)}
+			for j := 0; j < 8; j++ {
+				b.B[j] = v.B[8*pos(n, i)+j]
+			}
+			it.storeQuiet(st, Ptr{Obj: o, Path: fmt.Sprintf("[%d]", k)}, b)
+			k++
+		}
+		return SliceV{Obj: o, Len: k}, true
 	case "math/bits.RotateLeft32", "math/bits.RotateLeft8", "math/bits.RotateLeft16", "math/bits.RotateLeft64":
 		v, ok1 := args[0].(BV)
 		k, ok2 := it.concreteInt(args[1])
